@@ -7,7 +7,8 @@ written after every step.  (O) on the REAL outputs: (a) close frames written on 
 (b) close()/send_close() with a status outside 0..65535 raise ValueError and write nothing; the frame written
 by close(s, r) decodes (Spec decoder) to FIN=1 opcode 8 payload be16(s)++r; (c) after a connected close() or
 a loss the object is inert: sock is None, transport closed, later send/recv/ping raise CLOSED with zero
-transport calls; (d) close(timeout=t) returns before 2t of virtual time, exactly t against a silent peer.
+transport calls; (d) close(timeout=t) returns before 2t of virtual time, exactly t against a silent peer, and with t = 0 does not keep
+reading for as long as the peer has data (at most 50 transport reads against a 245-frame burst).
 """
 import itertools
 
@@ -16,7 +17,8 @@ import rx
 from rx import F
 
 OPS = ["send:1:61", "recv", "ping:70", "close:1000:-:1000", "close:1001:6279:3000", "close:70000:-:1000",
-       "sclose:1002:78", "sclose:-1:-", "shutdown", "rdf:1"]
+       "sclose:1002:78", "sclose:-1:-", "shutdown", "rdf:1",
+       "close:65536:-:1000", "sclose:65536:-", "close:1000:-:0"]      # the exact upper bound; a zero timeout
 
 
 def scripts():
@@ -38,6 +40,7 @@ def scripts():
                          ("wait", 400), ("chunk", d), ("wait", 400), ("chunk", d), ("wait", 400), ("chunk", d), ("wait", 400), ("chunk", d)],
         "very-late-close": [("wait", 2500), ("chunk", c1)],
         "reset": [("chunk", d), ("reset",)],
+        "burst": [("chunk", d * 120 + p * 5 + d * 120)],      # a peer that keeps talking: everything is already readable
     }
 
 
@@ -62,6 +65,7 @@ def judge(ctx, line, script, ops, impl, sock):
     own_close = 0
     prev_calls, prev_clock = 0, 0
     closes_written = 0
+    step_seen = []
     for op, st in zip(ops, sts):
         res, flags, calls, clock, delta = st[0], st[1], int(st[2]), int(st[3]), st[4]
         a = op.split(":")
@@ -116,6 +120,10 @@ def judge(ctx, line, script, ops, impl, sock):
             el = clock - prev_clock
             if el >= 2 * t and t > 0:
                 ctx.violate("close-returns-within-timeout", "exceeds-2x-timeout", inp, f"< {2 * t} ms", f"{el} ms", size=size)
+            nrecv = sock.step_recvs[len(step_seen)] - (sock.step_recvs[len(step_seen) - 1] if step_seen else 0)
+            if t == 0 and nrecv > 50:
+                ctx.violate("close-returns-within-timeout", "timeout-0-reads-as-long-as-data-arrives", inp,
+                            "no deadline-less reading with timeout=0", f"{nrecv} transport reads inside close(timeout=0)", size=size)
             if script in ("silent",) and el != t and not inert:
                 ctx.violate("close-returns-within-timeout", "silent-peer-not-exactly-timeout", inp, f"{t} ms", f"{el} ms", size=size)
         if res == "X:CLOSED" and a[0] in ("recv", "rdf") and not inert and calls > prev_calls:
@@ -129,6 +137,7 @@ def judge(ctx, line, script, ops, impl, sock):
         inert = inert or became_inert
         connected = flags[0] == "1"
         prev_calls, prev_clock = calls, clock
+        step_seen.append(op)
 
 
 def run(ctx):
